@@ -363,6 +363,14 @@ func getHandler(env *lisp.LEnv, in *lisp.LVal, name string, constraints []*lisp.
 					"Bad input type: an ordinary function is not usable as a constraint (%v). Constraints must be built by the s package (s:int, s:has-key, s:gt, ...) or by libschema.NewValidator.",
 					in)
 			}
+			// A validator in the TYPE position is a base type like any other:
+			// the constraints that follow it still apply.  Returning `in` alone
+			// silently dropped them, so (s:make-validator "t" V (s:gt 5))
+			// validated whatever V validated.  The composite constraints call
+			// getHandler with an empty list and still get `in` itself back.
+			if len(constraints) > 0 {
+				return builtinCheckAny(env, append([]*lisp.LVal{in}, constraints...))
+			}
 			return in
 		}
 		res = lisp.ErrorConditionf(BadArgs, "Bad input type: %s is not usable as a constraint (%v)", in.Type.String(), in)
